@@ -3030,6 +3030,8 @@ where
 
             // Apply perturbation for retry attempts
             if attempt > 0 {
+                #[cfg(delaunay_verif)]
+                crate::verif::tick::tick("insert.perturbation_retry");
                 let mut perturbed_coords = original_coords;
                 // Single local-scale perturbation:
                 // - f64: 1e-8 × local scale
